@@ -132,6 +132,31 @@ pub fn rle_decode(comp: &[u8], out_len: usize) -> Result<Vec<u8>, String> {
     Ok(out)
 }
 
+/// token walk of a packed stream: (is_literal, length) per token
+fn rle_tokens(comp: &[u8]) -> Vec<(bool, usize)> {
+    let mut v = vec![];
+    let mut s = 4;
+    while s < comp.len() {
+        let t = comp[s];
+        s += 1;
+        if t & 0x80 != 0 {
+            let c = (t & 0x7F) as usize + 1;
+            v.push((true, c));
+            s += c;
+        } else {
+            v.push((false, t as usize + 1));
+        }
+    }
+    v
+}
+pub fn rle_has_interior_zero_run(comp: &[u8]) -> bool {
+    let t = rle_tokens(comp);
+    t.windows(2).any(|w| !w[0].0 && w[1].0)
+}
+pub fn rle_longest_literal(comp: &[u8]) -> usize {
+    rle_tokens(comp).iter().filter(|t| t.0).map(|t| t.1).max().unwrap_or(0)
+}
+
 // ------------------------------------------------------------------------------------ BSDIFF40
 
 #[derive(Clone, Copy, Debug, PartialEq, Eq, Serialize, Deserialize)]
